@@ -22,7 +22,9 @@ fn emit<const D: usize>(id: &str, variant: &str, pts: &[Vec<f64>], out: &mut Out
     out.obs("circumradius", &val(catch(|| circumradius(&ps).map_err(ek))));
     out.obs("inradius", &val(catch(|| inradius(&ps).map_err(ek))));
     match catch(|| circumcenter(&ps).map_err(ek)) {
-        Ok(Ok(c)) => out.obs("circumcenter", &hxs(c.coords())),
+        Ok(Ok(c)) => { out.obs("circumcenter", &hxs(c.coords()));
+            // the two-argument form must agree with circumradius when given the library's own centre
+            out.obs("circumradius_wc", &val(catch(|| delaunay::geometry::util::circumradius_with_center(&ps, &c).map_err(ek)))); }
         Ok(Err(e)) => out.obs("circumcenter", &format!("err:{e}")),
         Err(m) => out.obs("circumcenter", &format!("panic:{m}")),
     }
